@@ -5,6 +5,7 @@ import (
 	"os"
 	"fmt"
 	"go/ast"
+	"go/token"
 	"go/types"
 	"sort"
 	"strings"
@@ -342,6 +343,75 @@ func c16Fetch(c *Ctx) {
 	}
 	c.check("fetch.early-return-needs-complete-dir", f.Name, f.Body.Pos(), okEarly,
 		"a success return before the lock is taken must be guarded by downloadDir reporting a complete directory")
+
+	// 9. a partially extracted directory left by a crashed fetch is removed
+	// before the zip is extracted again (Unzip refuses a non-empty target):
+	// between the lock and Unzip, RemoveAll(dir) may be skipped only on an
+	// edge that proves the post-lock verdict is not a *downloadDirPartialError
+	// (comma-ok type assertion or errors.As on that type).
+	var dirObj types.Object
+	for _, call := range unzip {
+		if len(call.Args) > 0 {
+			dirObj = identObj(info, call.Args[0])
+		}
+	}
+	rmDir := g.callNodesWhere(func(call *ast.CallExpr) bool {
+		return len(call.Args) == 1 && dirObj != nil && identObj(info, call.Args[0]) == dirObj
+	}, mc+"RemoveAll", "os.RemoveAll", "internal/robustio.RemoveAll")
+	isPartialT := func(t types.Type) bool {
+		if p, ok := t.(*types.Pointer); ok {
+			if n, ok := p.Elem().(*types.Named); ok {
+				return n.Obj().Name() == "downloadDirPartialError" && n.Obj().Pkg() != nil && strings.HasSuffix(n.Obj().Pkg().Path(), "mod/modcache")
+			}
+		}
+		return false
+	}
+	partialAtom := func(e ast.Expr) (bool, bool) {
+		switch x := e.(type) {
+		case *ast.Ident:
+			// ok of `_, ok := err.(*downloadDirPartialError)`
+			o := info.Uses[x]
+			found := false
+			ast.Inspect(f.Body, func(n ast.Node) bool {
+				as, isAs := n.(*ast.AssignStmt)
+				if !isAs || len(as.Lhs) != 2 || len(as.Rhs) != 1 || o == nil || identObj(info, as.Lhs[1]) != o {
+					return true
+				}
+				if ta, isTA := ast.Unparen(as.Rhs[0]).(*ast.TypeAssertExpr); isTA && ta.Type != nil && isPartialT(info.TypeOf(ta.Type)) {
+					found = true
+				}
+				return true
+			})
+			return found, true
+		case *ast.CallExpr:
+			if calleeName(info, x) == "errors.As" && len(x.Args) == 2 {
+				if u, ok := ast.Unparen(x.Args[1]).(*ast.UnaryExpr); ok && u.Op == token.AND && isPartialT(info.TypeOf(u.X)) {
+					return true, true
+				}
+			}
+		}
+		return false, false
+	}
+	okRm := len(rmDir) > 0
+	nProof := 0
+	r9 := g.reach([]int{lockID}, func(id int) bool { _, is := rmDir[id]; return is }, func(from int, e GEdge) bool {
+		if e.Cond == nil {
+			return false
+		}
+		p := atomOnEdge(e.Cond, e.Truth, partialAtom)
+		if p.present && p.good && !p.bad && !p.na {
+			nProof++
+			return true
+		}
+		return false
+	})
+	for u := range unzip {
+		if r9[u] {
+			okRm = false
+		}
+	}
+	c.check("fetch.partial-dir-removed-before-unzip", f.Name, f.Body.Pos(), okRm,
+		fmt.Sprintf("between lockVersion and Unzip, RemoveAll(dir) may be skipped only on an edge proving the post-lock downloadDir verdict is not a *downloadDirPartialError (type assertion / errors.As); a partial directory left by a crashed fetch would otherwise make Unzip refuse the non-empty target and the next fetch fail (proof edges seen: %d)", nProof))
 }
 
 func maskStr(ms []uint64) string {
